@@ -76,11 +76,18 @@ Definition parent_ok (m : fsmap) (p : list N) (need_write : bool) : bool :=
               end
   end.
 
+(* a relative link target is relative to the directory the link is in *)
+Definition link_target (p t : list N) : list N :=
+  match parent p with
+  | Some (c :: d) => (c :: d) ++ [47%N] ++ t
+  | _ => t
+  end.
+
 (* stat(2) following one level of symlink in the same name space *)
 Definition stat (m : fsmap) (p : list N) : option node :=
   if negb (parent_ok m p false) then None
   else match lookup m p with
-       | Some (Sym t) => (match lookup m t with Some (Sym _) => None | x => x end)
+       | Some (Sym t) => (match lookup m (link_target p t) with Some (Sym _) => None | x => x end)
        | x => x
        end.
 
@@ -107,8 +114,8 @@ Definition exec_op (m : fsmap) (um : N) (o : sysop) : fsmap + errno :=
            | Some (Reg d _) => inl (upd m p (Reg d mode))
            | Some (Dir _) => inl (upd m p (Dir mode))
            | Some (Other _) => inl (upd m p (Other mode))
-           | Some (Sym t) => (match lookup m t with
-                              | Some (Reg d _) => inl (upd m t (Reg d mode))
+           | Some (Sym t) => (match lookup m (link_target p t) with
+                              | Some (Reg d _) => inl (upd m (link_target p t) (Reg d mode))
                               | _ => inr ENOENT
                               end)
            | None => inr ENOENT
@@ -146,9 +153,9 @@ Definition exec_op (m : fsmap) (um : N) (o : sysop) : fsmap + errno :=
       match lookup m p with
       | Some (Reg _ mode) => if parent_ok m p false && owner_w mode then inl (upd m p (Reg data mode)) else inr EACCES
       | Some (Dir _) => inr EISDIR
-      | Some (Sym t) => (match lookup m t with
-                         | Some (Reg _ mode) => if owner_w mode then inl (upd m t (Reg data mode)) else inr EACCES
-                         | None => inl (upd m t (Reg data (N.land 438 (N.lxor 4095 (N.land um 4095)))))
+      | Some (Sym t) => (match lookup m (link_target p t) with
+                         | Some (Reg _ mode) => if owner_w mode then inl (upd m (link_target p t) (Reg data mode)) else inr EACCES
+                         | None => inl (upd m (link_target p t) (Reg data (N.land 438 (N.lxor 4095 (N.land um 4095)))))
                          | _ => inr EACCES
                          end)
       | Some (Other _) => inr EOTHER
